@@ -1397,6 +1397,9 @@ def beval(t: Term, atoms: Dict[Term, bool]):
         if isinstance(a, bool) and isinstance(b, bool):
             return (a == b) if t[1] in ("Eq", "Is") else (a != b)
         return None
+    if k == "call" and t[1] == ("name", "bool") and len(t[2]) == 1 and not t[3]:
+        v = beval(t[2][0], atoms)
+        return None if v is None else bool(v)
     if k == "bin" and t[1] == "BitXor":
         a, b = beval(t[2], atoms), beval(t[3], atoms)
         if isinstance(a, bool) and isinstance(b, bool):
